@@ -38,7 +38,7 @@ def run_wire(program, chooser, transport="popen", chunking="random", cut=None, p
     def writer(w, frames):
         try:
             for code, chan, ln, fill in frames:
-                events.append({"ev": "wcall", "w": w, "code": code, "chan": chan, "len": ln, "fill": fill if ln else 0, "res": "", "cut": False})
+                events.append({"ev": "wcall", "w": w, "code": code, "chan": str(chan), "len": ln, "fill": fill if ln else 0, "res": "", "cut": False})
                 try:
                     Message(code, chan, bytes([fill]) * ln).to_io(io_w)
                 except OSError:
@@ -56,21 +56,21 @@ def run_wire(program, chooser, transport="popen", chunking="random", cut=None, p
             try:
                 m = Message.from_io(io_r)
             except EOFError:
-                events.append({"ev": "end", "w": "", "code": 0, "chan": 0, "len": 0, "fill": 0, "res": "", "cut": cut is not None})
+                events.append({"ev": "end", "w": "", "code": 0, "chan": "0", "len": 0, "fill": 0, "res": "", "cut": cut is not None})
                 return
             except BaseException as e:  # noqa: BLE001
                 if type(e).__name__ == "SimAbort":
                     raise
-                events.append({"ev": "rerr", "w": "", "code": 0, "chan": 0, "len": 0, "fill": 0, "res": type(e).__name__, "cut": False})
+                events.append({"ev": "rerr", "w": "", "code": 0, "chan": "0", "len": 0, "fill": 0, "res": type(e).__name__, "cut": False})
                 return
             d = m.data
             fill = d[0] if d and d == bytes([d[0]]) * len(d) else (0 if not d else -1)
-            events.append({"ev": "rdec", "w": "", "code": m.msgcode, "chan": m.channelid, "len": len(d), "fill": fill, "res": "", "cut": False})
+            events.append({"ev": "rdec", "w": "", "code": m.msgcode, "chan": str(m.channelid), "len": len(d), "fill": fill, "res": "", "cut": False})
 
     for i, frames in enumerate(program["writers"]):
         s.spawn(f"w{i}", writer, (f"w{i}", frames))
     s.spawn("reader", reader)
     outcome = s.run()
     if outcome != "done":
-        events.append({"ev": "stuck", "w": "", "code": 0, "chan": 0, "len": 0, "fill": 0, "res": outcome, "cut": False})
+        events.append({"ev": "stuck", "w": "", "code": 0, "chan": "0", "len": 0, "fill": 0, "res": outcome, "cut": False})
     return {"outcome": outcome, "events": events, "decisions": [d[0] for d in chooser.decisions], "wire_bytes": fwd.written}
